@@ -88,6 +88,34 @@ CHECKS = {
         "note": TB + "sequentially consistent atomics; only properly nested (LIFO) context switches - other interleavings are outside the claim; clock arbitrary but non-decreasing.",
         "technique": "Kani/CBMC bounded model checking of the verbatim breaker; interleavings encoded as nondeterministic nested operations at every atomic access",
     },
+    "C14": {
+        "text": "PARTIAL claim (the placement arithmetic; membership-event ordering is outside): bounded model checking of the verbatim TopologyManager::calculate_partition_replicas / "
+                "calculate_assigned_partitions. For each of the 24 (N <= 4, buckets <= 6) pairs, all partition counts <= 8 and rf <= 4: exactly min(rf,N) pairwise distinct replicas starting at "
+                "the primary node, and a node owns a partition iff it is in the replica set; plus the ownership predicate for cluster sizes up to 1024 (N >= 256 included) against min(rf,N) in wide arithmetic.",
+        "note": TB + "generic cluster key instantiated with u32; HashMap/HashSet -> array-backed shims; 'same on every node' holds because the functions are pure - the order of membership events (libp2p state machine) is not examined.",
+        "technique": "Kani/CBMC bounded model checking of verbatim slices of the topology manager",
+    },
+    "C16": {
+        "text": "KERNEL-ONLY claim: serialisation is structural (one worker loop per bucket), so what is decided is that the structure is used consistently - bounded model checking of the verbatim "
+                "bucket_id_to_thread_id (the one function both routing and ownership call): every listed bucket (<= 6 symbolic distinct ids) maps to exactly one thread id < threads, monotone and gap-free, "
+                "unlisted buckets map to no thread, every thread owns a bucket and loads differ by at most one. The race itself (many clients, real threads) is NOT examined.",
+        "note": TB + "Kani has no concurrency: the atomicity of validate-then-write on the owning thread is not re-proved under interleaving.",
+        "technique": "Kani/CBMC bounded model checking of the verbatim routing function",
+    },
+    "C17": {
+        "text": "Bounded model checking of seglog's real parse_record, Reader (optimistic / fallback / large random paths and the sequential path), Iter and Writer with the REAL crc32fast (table implementation) over a "
+                "modelled file: round trip byte-identical through every read path; ANY single flipped bit of crc|header|data (symbolic position) rejected; any single flipped length bit never yields valid data nor a panic; "
+                "bursts <= 32 bits (symbolic start and pattern) inside header|data rejected; any strict prefix of a record never returned. Record lengths (0..12 data bytes, H in {0,1}) and read path are enumerated shapes, contents symbolic.",
+        "note": TB + "file model; scaled buffer constants so that all four read paths are reachable with <= 12-byte records; crc32fast baseline instead of the cpuid-dispatched SIMD path; compressed records and the reopen scan are outside. "
+                "Known finding: a burst starting inside the stored CRC field can go undetected (format-level).",
+        "technique": "Kani/CBMC bounded model checking of the real seglog readers with the real CRC-32 tables; counterexample values replayed natively",
+    },
+    "C22": {
+        "text": "ONE KERNEL of C22 only (everything else in the property - command histories over TCP against a model - is not encodable and not claimed): bounded model checking of the verbatim statement block of "
+                "EMAppend::handle_request that rebuilds per-event stream versions from the cluster reply: for 3 events over two streams with symbolic assignment and full-u64 start versions, no panic and versions start, start+1, ... per stream in event order.",
+        "note": TB + "the statement-range slicer; the cluster reply is assumed consistent (stream_versions = last version per stream); HashMap -> shim.",
+        "technique": "Kani/CBMC bounded model checking of a verbatim statement-range slice",
+    },
 }
 
 _PENDING = "check not built yet in this tree (planned in DESIGN.md §3); not claimed until its harness exists and passes"
@@ -102,7 +130,19 @@ NOT_APPLICABLE = {
     "C15": "the race window exists only between real threads (writer thread vs rayon broadcast vs reader tasks) over two independently updated structures; Kani has no threads",
     "C20": "liveness under thread schedules and tokio wake-up semantics: not a bounded safety query",
 }
-for _p in ["C01", "C02", "C03", "C04", "C05", "C07", "C08", "C12", "C13", "C14", "C16", "C17", "C18", "C19", "C21", "C22", "C23", "C26"]:
-    NOT_APPLICABLE.setdefault(_p, _PENDING)
+NOT_APPLICABLE.update({
+    "C02": "not reached: WriterSet::validate_event_versions reads the stream indexes (open index, closed MPHF/bloom indexes, pending entries) of a live WriterSet; a slice needs ~15 mocked types and was not built in the time available - "
+           "the expected-version algebra it relies on is decided under C25, nothing else of C02 is claimed",
+    "C03": "not reached: the scan arithmetic lives in SegmentIter/BucketIter (async, block cache, MPHF lookups); no harness was built - nothing claimed",
+    "C04": "not reached: commit matching (SegmentBlock::read_committed_events) decodes bincode RawEvent/RawCommit records through the sierradb crate; no overlay of that crate was built - nothing claimed",
+    "C05": "attempted, no verdict: Writer::open's recovery scan is a data-dependent loop (every CRC outcome forks, the resume offset then indexes every buffer); CBMC did not finish one crash cut in 20 min even with the cut, "
+           "lengths and start offset concrete (harness kept as harness/seglog/c05.rs, not registered); hydration of the indexes (K2) needs the sierradb indexes - nothing claimed",
+    "C07": "attempted, no verdict: the verbatim handle_partition_read_locally / handle_stream_read_locally slices (async closures on tokio::spawn, run with kani::block_on over a 3-event mock log) did not terminate in 25 min "
+           "even for a fully concrete witness harness (harness kept as harness/c07, not registered); AtomicWatermark::can_read is decided under C08 - nothing else claimed",
+    "C13": "attempted, no verdict: the verbatim AppConfig::assigned_buckets/assigned_partitions vs calculate_assigned_partitions comparison (harness/topo, c13_placement_*) timed out at 15 min per (N,B) instance; "
+           "reading the code says the two placement rules differ whenever buckets > nodes and rf < nodes (contiguous ranges vs round robin), but no check here decides it - nothing claimed",
+    "C19": "not reached: the size estimate is inline in Worker::handle_append_events and needs the bincode-encoded record sizes; no harness built - nothing claimed",
+    "C21": "not reached: the command parsers are `combine` parser combinators over heap strings (weak solver target); no harness built - nothing claimed",
+})
 for _p in CHECKS:
     NOT_APPLICABLE.pop(_p, None)
